@@ -18,6 +18,10 @@ pub struct SchedWriter {
     pub fail_at: Option<usize>,
     pub rng: Rng,
     pub whole: bool,
+    /// how a std writer reports that it is full at `fail_at`: an error (false) or `Ok(0)` like `&mut [u8]` (true)
+    pub zero: bool,
+    /// sprinkle `ErrorKind::Interrupted` results (which `write_all` must retry) between the real calls
+    pub interrupts: bool,
 }
 impl SchedWriter {
     fn accept(&mut self, buf: &[u8]) -> Result<usize, ()> {
@@ -38,7 +42,14 @@ impl SchedWriter {
 }
 impl std::io::Write for SchedWriter {
     fn write(&mut self, buf: &[u8]) -> std::io::Result<usize> {
-        self.accept(buf).map_err(|_| std::io::Error::new(std::io::ErrorKind::Other, "injected"))
+        if self.interrupts && self.rng.chance(1, 3) {
+            return Err(std::io::Error::new(std::io::ErrorKind::Interrupted, "try again"));
+        }
+        match self.accept(buf) {
+            Ok(n) => Ok(n),
+            Err(()) if self.zero => Ok(0),
+            Err(()) => Err(std::io::Error::new(std::io::ErrorKind::Other, "injected")),
+        }
     }
     fn flush(&mut self) -> std::io::Result<()> {
         Ok(())
@@ -102,6 +113,10 @@ impl SchedReader {
 }
 impl std::io::Read for SchedReader {
     fn read(&mut self, buf: &mut [u8]) -> std::io::Result<usize> {
+        // random schedules also interleave `Interrupted` results, which a reader must simply retry
+        if !self.whole && !self.one && self.rng.chance(1, 5) {
+            return Err(std::io::Error::new(std::io::ErrorKind::Interrupted, "try again"));
+        }
         self.deliver(buf).map_err(|_| std::io::Error::new(std::io::ErrorKind::Other, "injected"))
     }
 }
@@ -131,10 +146,11 @@ pub fn eval(ctx: &mut Ctx, op: &str, args: &[Sexp]) -> Option<String> {
             let fail_at = opt_num(args.get(1)?)?;
             let sched: u64 = args.get(2)?.atom()?.parse().ok()?;
             let v = DVal::from_sexp(args.get(3)?)?;
-            let w = SchedWriter { written: Vec::new(), fail_at, rng: Rng::new(sched), whole: sched == 0 };
+            // adapters: std | stdzero (a full sink answers Ok(0)) | stdintr (Interrupted results in between) | eio
+            let w = SchedWriter { written: Vec::new(), fail_at, rng: Rng::new(sched), whole: sched == 0, zero: adapter == "stdzero", interrupts: adapter == "stdintr" };
             let plain = postcard::to_allocvec(&v).ok();
             let r: Result<(Result<(), &'static str>, Vec<u8>), ()> = guard(|| {
-                if adapter == "std" {
+                if adapter.starts_with("std") {
                     let mut w = w;
                     let r = postcard::to_io(&v, &mut w).map(|_| ()).map_err(|e| err_name(&e));
                     (r, w.written)
@@ -335,6 +351,13 @@ pub fn gen_c11(r: &mut Rng, thorough: bool, out: &mut Vec<String>) {
         }
         for k in 0..=l0 + 1 {
             out.push(format!("wio {} {} {} {}", adapter, k, r.below(3), v0));
+            if adapter == "std" {
+                out.push(format!("wio stdzero {} {} {}", k, r.below(3), v0));
+                out.push(format!("wio stdintr {} {} {}", k, 1 + r.below(50), v0));
+            }
+        }
+        if adapter == "std" {
+            out.push(format!("wio stdintr none {} {}", 3 + i as u64, v0));
         }
         // reader: schedules x scratch sizes 0..need+1 x fault at every offset
         for sched in [0u64, 1, 11 + i as u64] {
